@@ -20,7 +20,8 @@ RULE = ("(1) Hypothesis stateful machine over the public ModelState/ClusterParam
         "share no array memory and no list object with its source. (2) The same partition invariant and input-not-mutated test "
         "at every phase boundary of traced end-to-end runs, where the listener keeps the live objects and re-compares them with "
         "their snapshots at the end of the run. Non-trivial (machine) = a history with a copy followed by a mutation of the copy "
-        "or of the source; (traced) = >= 2 rounds; distinct by SHA-1 of the recorded history / case.")
+        "or of the source; (traced) = >= 2 rounds; distinct by SHA-1 of the recorded history / case."
+        ' States may hold a read-only view of a live buffer; labellings of another length (shorter, longer, empty, same leading labels) are assigned to throw-away copies.')
 ASSUMPTIONS = ["in the operation machine the log-determinant is treated like inverse_covariance (a scoring value the labelling phase refreshes on its input); in traced runs it is compared",
                "in-place mutation is applied only to states that exclusively own their arrays (deep copies, or fresh-cluster copies nobody has derived a shallow copy from)",
                "inverse_covariance is a scoring alias that the labelling phase refreshes on its input before use; it is not part of 'fitted statistics'",
@@ -115,7 +116,14 @@ class Driver:
         args = arguments.UserArguments(sparsity_weight=lam, iteration_limit=5, label_switching_cost=beta, min_cluster_size=m,
                                        min_meaningful_covariance=0, num_clusters=K, num_processors=1, window_size=W,
                                        biased_covariance=biased)
-        s = model_state.ModelState.empty_model(args, self.data)
+        held = self.data
+        if (seed >> 9) & 1:
+            # the state holds a read-only window onto a buffer its creator can still write to (a frozen view, a memory map):
+            # "read-only" is a property of the view, not of the memory, so a deep copy has to copy it all the same
+            held = self.data.view()
+            held.flags.writeable = False
+            self.t.cls("state_holds_read_only_view_of_live_buffer")
+        s = model_state.ModelState.empty_model(args, held)
         labels = [int(v) for v in rng.integers(0, K, size=T)]
         s.point_labels = labels
         self._add(s, "deep")
@@ -156,6 +164,20 @@ class Driver:
             s2.point_labels = labels
             if [int(v) for v in s2.point_labels] != labels:
                 raise Violation("assigned labelling is not what the state reports")
+            # a labelling for another number of points (the model is being applied to a shorter / longer series) that starts
+            # like the one the state already holds: on a throw-away copy, so that the history keeps one length
+            s3 = s.shallow_copy()
+            s3.clusters = [c.deep_copy() for c in s3.clusters]
+            cur = [int(v) for v in s3.point_labels]
+            how = int(rng.integers(0, 4))
+            other = cur[:max(0, len(cur) - 1 - int(rng.integers(0, 5)))] if how < 2 else (cur + cur[:1 + int(rng.integers(0, 5))] if how == 2 else [])
+            s3.point_labels = list(other)
+            got = [int(v) for v in s3.point_labels]
+            if got != other:
+                raise Violation(f"a labelling of {len(other)} points was assigned to a state holding {len(cur)} labels (same leading labels); "
+                                f"the state now reports {len(got)} labels")
+            check_partition_snap(e2e.snap_state(s3), self.K, len(other), "state after assigning a labelling of another length")
+            self.t.cls("assigned_labelling_of_another_length")
             self._add(s2, "clusters")
             self.copied = True
             self._check_all("copy with fresh clusters + assign labels", target=i, new_index=len(self.states) - 1)
@@ -390,6 +412,7 @@ def multiworker_case(draw):
     cfg["delays_ms"] = [draw(st.sampled_from([0, 10, 25, 40])) for _ in range(4)]
     cfg["reuse_buffers"] = False
     cfg["prior_calls_on_same_arrays"] = False
+    cfg["prior_run_override"] = None        # the per-task delays are armed for the call under test
     return cfg
 
 
